@@ -110,7 +110,40 @@ def _box(config, I):
     return itertools.product(range(max(lmin - 1, 0), L + 1), repeat=d)
 
 
+def _reuse_case(case):
+    """ONE CombiScheme object: a sequence of closed-form requests (lmin,lmax) and adaptive (re-)initialisations; every answer must equal
+    the reference model (and hence a fresh object's answer)"""
+    from sparseSpACE.combiScheme import CombiScheme
+    d = case["config"]["d"]
+    key = {"d": d, "oracle_kind": "object_reuse"}
+    fails = []
+    cs = CombiScheme(d)
+    for step, op in enumerate(case["ops"]):
+        kind, lmin, lmax = op
+        if kind == "closed":
+            if cs.initialized_adaptive:
+                continue          # after an adaptive initialisation getCombiScheme ignores lmin/lmax by design
+            got = _scheme_dict(cs.getCombiScheme(lmin, lmax, do_print=False))
+            want = ref.standard_scheme(d, lmin, lmax)
+            if got != want:
+                fails.append(fail("reused_object_closed_form", "ops %r step %d: closed form (%d,%d) = %r, reference %r" % (case["ops"][:step + 1], step, lmin, lmax, sorted(got.items()), sorted(want.items())), key))
+                break
+        else:
+            cs.init_adaptive_combi_scheme(lmax, lmin)
+            old, act = ref.initial_sets(d, lmin, lmax)
+            got = _scheme_dict(cs.getCombiScheme(do_print=False))
+            if cs.old_index_set != old or cs.active_index_set != act or got != ref.standard_scheme(d, lmin, lmax):
+                fails.append(fail("reused_object_reinitialisation", "ops %r step %d: state after init(%d,%d) differs from a fresh object" % (case["ops"][:step + 1], step, lmax, lmin), key))
+                break
+            # one refinement in between so that a later re-initialisation has something to forget
+            a0 = sorted(cs.active_index_set)[0]
+            cs.update_adaptive_combi(list(a0))
+    return {"failures": fails, "canon": ("reuse", core.config_key(case["config"]), tuple(map(tuple, case["ops"]))), "succ": [], "evals": len(case["ops"])}
+
+
 def run_case(case):
+    if "ops" in case:
+        return _reuse_case(case)
     config, history = case["config"], [tuple(l) for l in case["history"]]
     d, lmin, lmax = config["d"], config["lmin"], config["lmax"]
     try:
@@ -161,11 +194,11 @@ def configs(tier):
                     if d == 3 and lmax - lmin > 2:
                         continue
                 else:
-                    D = {1: 7, 2: 6, 3: 5, 4: 3}[d]
-                    if d == 4 and lmax - lmin > 2:
+                    D = {1: 7, 2: 6, 3: 4, 4: 2}[d]
+                    if d == 4 and lmax - lmin > 1:
                         continue
                     if d == 3 and lmax - lmin == 3:
-                        D = 4
+                        D = 3
                 out.append(({"d": d, "lmin": lmin, "lmax": lmax}, D))
     for d in (1, 2, 3):          # larger minimum levels: closed form and the first two refinement layers only
         for lmin in (3, 4):
@@ -214,6 +247,18 @@ def main(ctx):
                 ctx.caps.append("time budget reached in %s after depth %d" % (tag, level))
                 break
         ctx.bounds[tag] = {"effective_refinement_depth": depth_done + 1, "states": len(seen)}
+    # object reuse: every ordered pair / triple of closed-form requests on ONE CombiScheme object, and re-initialisations
+    pairs = [(1, 1), (1, 2), (1, 3), (2, 3), (2, 4), (3, 4), (0, 2)]
+    reuse = []
+    for d in (1, 2, 3):
+        for n in (2, 3):
+            for seq in itertools.product(pairs, repeat=n):
+                reuse.append({"config": {"d": d}, "history": [], "ops": [["closed", a, b] for a, b in seq]})
+        for seq in itertools.product(pairs[:5], repeat=2):
+            reuse.append({"config": {"d": d}, "history": [], "ops": [["init", a, b] for a, b in seq]})
+    for task, res in zip(reuse, ctx.map(reuse)):
+        ctx.absorb(task, res, state_key=res["canon"], group="object_reuse")
+    ctx.bounds["object_reuse_sequences"] = len(reuse)
     ctx.notes.append("requests issued: %d, of which refinable: %d" % (total_requests, refinable))
     return ctx.finish(
         rule="state = (old,active) index sets reached by a history of effective refinements from every (d,lmin,lmax) start; "
